@@ -93,7 +93,7 @@ def structural_termination():
                         problems.append("%s: recursive call at line %d" % (f.name, x.lineno))
                 if isinstance(x, ast.For):
                     it = ast.unparse(x.iter)
-                    if it not in ("enumerate(yaml_path)", "segment_id", "segments", "symbols", "oparts"):
+                    if it not in ("enumerate(yaml_path)", "segment_id", "segments", "symbols", "oparts", "str(value)"):
                         problems.append("%s: for over %s at line %d" % (f.name, it, x.lineno))
     for w in watched:
         if w not in seen:
